@@ -172,6 +172,27 @@ pub fn c02_eval(bytes: &[u8], uni: &'static str, acc: &mut Acc) {
         acc.bump("not-valid-skipped");
         return;
     };
+    if limits.int_overflow || limits.float_overflow {
+        // the document says a number no i64 / finite f64 can hold: whatever an accepting parser hands out cannot be
+        // "exactly what the document says" (refusing is the documented limit, C01 / C11)
+        let accepted: Vec<&str> = [
+            ("DocumentMut", text.parse::<DocumentMut>().is_ok()),
+            ("ImDocument", ImDocument::parse(text).is_ok()),
+            ("toml::from_str::<Value>", toml::from_str::<toml::Value>(text).is_ok()),
+            ("toml_edit::de::from_str::<Value>", toml_edit::de::from_str::<toml::Value>(text).is_ok()),
+        ]
+        .iter()
+        .filter(|(_, ok)| *ok)
+        .map(|(n, _)| *n)
+        .collect();
+        acc.nontrivial(bytes);
+        if accepted.is_empty() {
+            acc.bump("number beyond the representable range: refused");
+        } else {
+            acc.viol(uni, text.to_string(), None, format!("the document holds an integer outside i64 or a decimal float beyond f64, yet {} decode(s) it to some value", accepted.join(", ")));
+        }
+        return;
+    }
     if limits.any() {
         acc.bump("limit-skipped");
         return;
